@@ -293,6 +293,10 @@ func (m *ModuleInstance) buildTables(module *Module, skipBoundCheck bool) (err e
 	if !skipBoundCheck {
 		for elemI := range module.ElementSection { // Do not loop over the value since elementSegments is a slice of value.
 			elem := &module.ElementSection[elemI]
+			if !elem.IsActive() {
+				// Passive segments have no table or offset to check: they are only used by table.init.
+				continue
+			}
 			table := m.Tables[elem.TableIndex]
 			var offset uint32
 			if elem.OffsetExpr.Opcode == OpcodeGlobalGet {
